@@ -154,6 +154,46 @@ TF_POST = [
 TF_POST_GRAPH = [t.replace("old(data)", "old(graph)") for t in TF_POST]
 
 
+# --- get_subgraphs -----------------------------------------------------------------------------------
+SG_OUTER = [
+    "graph == G",
+    "distinct(keys)",
+    "forall(x, Comp, (x in keys(G)) == (x in elems(keys) or x in Y))",
+    "forall(j, range(0, len(keys)), keys[j] not in Y)",
+    # everything emitted so far: closed under in-graph neighbours, keyed disjointly, values are the dependency sets
+    "forall(x, Y, x in keys(G) and forall(y, Comp, implies(nbr(x, y) and y in keys(G), y in Y)))",
+    "forall(j, range(0, len(yields_)), subset(keys(yields_[j]), Y) and not isempty(keys(yields_[j])))",
+    "forall(a, range(0, len(yields_)), forall(b, range(0, len(yields_)), implies(a < b, disjoint(keys(yields_[a]), keys(yields_[b])))))",
+    "forall(j, range(0, len(yields_)), forall(s, yields_[j], yields_[j][s] == deps_of(s) and "
+    "   forall(y, Comp, implies(nbr(s, y) and y in keys(G), y in yields_[j]))))",
+    "forall(x, Y, x in yidx and 0 <= yidx[x] and yidx[x] < len(yields_) and x in yields_[yidx[x]])",
+    "isempty(seen)", "isempty(frontier)",
+]
+SG_INNER = [
+    # keys, Y, yields_, yidx, k0 are not written by the inner loop: their facts carry over from the outer state
+    "forall(x, seen, x in keys(G) and x not in Y)",
+    "forall(x, frontier, x in keys(G) and x not in Y)",
+    "forall(x, seen, forall(y, Comp, implies(nbr(x, y) and y in keys(G), y in seen or y in frontier)))",
+    "disjoint(frontier, seen)",
+    "k0 in seen or k0 in frontier",
+]
+SG_REMOVE = [
+    "distinct(keys)",
+    "forall(x, Comp, (x in elems(keys)) == (x in elems(lold(keys)) and x not in removed))",
+    "subset(removed, seen)",
+    "forall(j, range(0, i_2), it_2[j] in removed)",
+]
+SG_POST = [
+    # `result`: the yielded dictionaries; yidx (ghost result): the index of the dictionary holding each key.
+    # Nothing lost, nothing duplicated, each piece closed under in-graph neighbours, values are the dependency sets
+    "forall(x, keys(G), x in yidx and 0 <= yidx[x] and yidx[x] < len(result) and x in result[yidx[x]])",
+    "forall(j, range(0, len(result)), subset(keys(result[j]), keys(G)) and not isempty(keys(result[j])))",
+    "forall(a, range(0, len(result)), forall(b, range(0, len(result)), implies(a < b, disjoint(keys(result[a]), keys(result[b])))))",
+    "forall(j, range(0, len(result)), forall(s, result[j], result[j][s] == deps_of(s) and "
+    "   forall(y, Comp, implies(nbr(s, y) and y in keys(G), y in result[j]))))",
+]
+
+
 def declare(reg):
     reg.sort(Comp=Comp, Val=Val, Obs=Obs)
     reg.exc_files.append("insights/core/exceptions.py")
@@ -319,3 +359,26 @@ def declare(reg):
                                              note="an observer may raise any Exception; it is assumed not to write Broker fields")
     reg.contract(M, "Broker.fire_observers", params=dict(self=Ref("Broker"), component=Comp),
                  loops={0: ["True"], 1: ["True"]}, raises={}, ensures=[])
+
+    # ------------------------------------------------------------------ sub-graph decomposition (C04)
+    reg.specfun("deps_of", dict(c=Comp), Set(Comp), None)
+    reg.specfun("dependents_of", dict(c=Comp), Set(Comp), None)
+    reg.external("get_dependencies", params=dict(component=Comp), returns=Set(Comp), pure=True, ensures=["result == deps_of(component)"],
+                 note="get_dependencies(c) is the delegate's dependency set; read-only")
+    reg.external("get_dependents", params=dict(component=Comp), returns=Set(Comp), pure=True, ensures=["result == dependents_of(component)"])
+    reg.glob(M, DEPENDENCIES=Map(Comp, Set(Comp)))
+    reg.specfun("nbr", dict(x=Comp, y=Comp), BOOL, "y in deps_of(x) or y in dependents_of(x)")
+    reg.contract(M, "get_subgraphs", params=dict(graph=Map(Comp, Set(Comp))), yields=Map(Comp, Set(Comp)),
+                 # DEPENDENTS is the inverse of the delegates' dependency sets (established by ComponentType.__call__ / add_dependency)
+                 requires=["forall(x, Comp, forall(y, Comp, (y in deps_of(x)) == (x in dependents_of(y))))"],
+                 empties=dict(set=Set(Comp)),
+                 ghosts=collections.OrderedDict(Y=(Set(Comp), "set()"), G=(Map(Comp, Set(Comp)), "graph if graph else DEPENDENCIES"),
+                                                yidx=(Map(Comp, INT), "{}"), k0=(Comp, "uf('no_comp', Comp)"), removed=(Set(Comp), "set()")),
+                 locals=dict(Y=Set(Comp), frontier=Set(Comp), seen=Set(Comp), keys=List(Comp), yidx=Map(Comp, INT), k0=Comp, removed=Set(Comp)),
+                 ghost_on=[("frontier.add(keys.pop(0))", "k0 = keys[0]", "before"),
+                           ("yield dict(((s, get_dependencies(s)) for s in seen))",
+                            "Y = Y | seen; yidx = store_all(yidx, seen, len(yields_) - 1); removed = set()", "after"),
+                           ("keys.remove(s)", "removed.add(s)", "before")],
+                 loops={0: SG_OUTER, 1: SG_INNER, 2: SG_REMOVE},
+                 raises={},
+                 ensures=SG_POST)
